@@ -761,6 +761,7 @@ class GenX(Gen):
         self.models, self.funcs = [], []
         self.custom = make_custom_op()
         self.nfun = 0
+        self.alt_names = set()
 
     def inner_model(self):
         rng, op = self.rng, self.op
@@ -784,8 +785,14 @@ class GenX(Gen):
     def make_function(self, depth=0):
         rng, op = self.rng, self.op
         kind = rng.randrange(3)
-        name = f"F{self.nfun}"
+        name, domain = f"F{self.nfun}", "verif.fun"
         self.nfun += 1
+        if self.nfun > 1 and rng.random() < 0.3:
+            # the same function NAME in another domain: functions are identified by (domain, name)
+            cand = f"F{rng.randrange(self.nfun - 1)}"
+            if cand not in self.alt_names:
+                self.alt_names.add(cand)
+                name, domain = cand, "verif.alt"
         inner = rng.choice(self.funcs) if (self.funcs and rng.random() < 0.4) else None
 
         def body(x, y):
@@ -796,7 +803,7 @@ class GenX(Gen):
 
         from spox._function import to_function
 
-        f = to_function(name, "verif.fun")(body)
+        f = to_function(name, domain)(body)
         return lambda a, b: list(f(a, b))
 
     def program(self):
